@@ -582,10 +582,10 @@ theorem out_applyStr (c c' : Column) (p : StrFacts → Outcome Cell) (cls : Stri
       exact .kept _ hn hs (hG.1 _ hx) (hG.2 _ hx)
     · simp only [hn, Bool.false_eq_true, if_false] at hgx; cases hgx
 
-/-- **`Good` is closed under every transformer of the relation table** -/
-theorem outputs_good (o : ColOracle) : OutputsGood o := by
-  intro src dst g t c c' hg ht hG hsrc hacc hx
-  apply good_of_outCol
+/-- every transformer output is a column of produced cells -/
+theorem outputs_outCol (o : ColOracle) (src dst : Ty) (g : Column → R Bool) (t : Column → R Column) (c c' : Column)
+    (hg : guard o src dst = some g) (ht : xform o src dst = some t) (hG : Good o c)
+    (hsrc : containsB src c = true) (hacc : g c = .ok true) (hx : t c = .ok c') : OutCol c' := by
   have hwf : (∀ x ∈ c.cells, CellWF x) ∧ (∀ x ∈ c.cells, PayWF x) := ⟨hG.cellwf, hG.paywf⟩
   unfold guard at hg
   unfold xform at ht
@@ -646,6 +646,11 @@ theorem outputs_good (o : ColOracle) : OutputsGood o := by
     cases hw : f.email with
     | ok v => simp only [hw, Outcome.ok.injEq] at hy; subst hy; exact .email _
     | raises cls => simp only [hw] at hy; cases hy
+
+/-- **`Good` is closed under every transformer of the relation table** -/
+theorem outputs_good (o : ColOracle) : OutputsGood o := by
+  intro src dst g t c c' hg ht hG hsrc hacc hx
+  exact good_of_outCol o c' (outputs_outCol o src dst g t c c' hg ht hG hsrc hacc hx)
 
 /-- **the pandas backend model is a well-formed type system relative to `Good`** — no further hypothesis -/
 theorem pandas_WF' (o : ColOracle) (b : Built Ty) (ft : FromTable b) : (pandasTS o b).WF (Good o) :=
